@@ -1,6 +1,7 @@
 package main
 
 import (
+	"strings"
 	"fmt"
 	"regexp"
 	"regexp/syntax"
@@ -19,7 +20,7 @@ func init() {
 	register(&Prop{ID: "C14", N: 60000, Quick: 2500,
 		Assume: []string{"reference = stdlib regexp on the same bytes; offsets at>0 are compared only for patterns without look-around (stdlib has no search-from-offset API that keeps look-behind context), where slicing the haystack is exact", "engines are built through their exported constructors; 'declined' is recognised only where documented: CanHandle()==false, onepass.Build error, lazy compile error"},
 		Rule:   "cases G(D,i) (ASCII and valid-UTF-8 regions); for each pattern every engine is driven directly on the case's haystacks plus all strings of length <= 3 over three pattern-derived symbols, at every start offset (<= 12): PikeVM (Search, SearchAt, IsMatch, SearchWithCaptures(At), SearchWithSlotTable(At), SearchWithSlotTableCaptures(At), SearchWithCapturesInSpan, SearchBetween), BoundedBacktracker (fresh and reused state), lazy.DFA forward (Find, FindAt, SearchAt, SearchAtAnchored, IsMatch, IsMatchAt) and reverse (SearchReverse, IsMatchReverse) with one cache reused across all calls under 6 index-chosen capacity/clear-limit settings from {64,200,400,800,2Ki,64Ki,2Mi} × {0,1,5,1000} × DeterminizationLimit{10,1000}, onepass.DFA (Search, IsMatch); one evaluation = one engine call compared with the reference quantity; distinct_nontrivial = distinct (pattern, haystack, offset) triples with a reference match",
-		Triage: func(f *Failure) string { return "" },
+		Triage: triageC14,
 		Run:    runC14})
 }
 
@@ -300,4 +301,34 @@ func betweenWant(spanStr string, at, n int) string {
 		return "nil"
 	}
 	return spanStr
+}
+
+// triageC14 (baseline only): signatures of the open C14 findings.
+func triageC14(f *Failure) string {
+	if strings.HasPrefix(f.API, "onepass.") {
+		return "KF-C14-05" // one-pass DFA reports no match when bytes follow the match
+	}
+	// the first differing call is quoted in Got as: first: h="…" at=N got=… want=…
+	txt := f.Got
+	if k := strings.Index(txt, `first: h="`); k >= 0 {
+		txt = txt[k+len(`first: h=`):]
+		if e := strings.Index(txt, `" at=`); e >= 0 {
+			txt = txt[:e+1]
+		}
+	}
+	nonASCII := strings.Contains(txt, `\x`) || strings.Contains(txt, `\u`) || strings.Contains(txt, `\U`)
+	for _, r := range txt {
+		if r >= 0x80 {
+			nonASCII = true
+		}
+	}
+	switch {
+	case nonASCII:
+		return "KF-C14-02" // non-ASCII input (including start offsets inside a code point)
+	case features(f.Pattern).look:
+		return "KF-C14-03" // look-around in the lazy DFA
+	case features(f.Pattern).bigRepeatOfNullable && strings.Contains(f.API, "Captures"):
+		return "KF-C14-04" // captures of a repeated group whose last iteration is empty
+	}
+	return ""
 }
